@@ -312,3 +312,11 @@ impl From<SubmittedTx> for (BroadcastedTx, AsyncGrpcCall<TxInfo>) {
         (broadcasted_tx, confirm_tx)
     }
 }
+
+/// Verification hooks: compiled only with `--cfg eigerco_lumina_verif` (see /verif).
+#[cfg(eigerco_lumina_verif)]
+#[doc(hidden)]
+#[allow(unused_imports, missing_docs, dead_code, unreachable_pub)]
+pub mod verif {
+    use super::*;
+}
